@@ -208,6 +208,7 @@ func (v *vc) execCall(fr *frame, st *state, instr ssa.Instruction, c *ssa.CallCo
 	}
 	v.checkCalleeHolds(fr, st, instr, callee, c, args, site)
 	v.checkLookedUpReceiver(fr, st, callee, c, args, site)
+	v.checkNoRelock(fr, st, callee, c, site)
 	if fc := v.eng.contractFor(callee); fc != nil && !fc.inline {
 		v.contractCall(fr, st, instr, fc, callee, c, args, res, site)
 		return
